@@ -3,6 +3,8 @@
    harness/cmd/c11/value.go); output "ID<TAB>MODEL<TAB>SPEC":
      V: MODEL json=<hex of to_json v>;parse=<tree read by json_parse | ERR>;unjson=<of_tree of it>
         SPEC  tree=<tree_of v, numbers by value>;back=<norm v>;flags=<wf,data,reserved,strkeys,dupnames>
+        MODEL also mp=<hex of mp_bytes of the Go tree>;unmp=<unmsgpack_bytes of it>;ungo=<unjson_go>, SPEC gtree=<gtree_of v>
+     M <hex>: MODEL mptree=<Go tree read from the bytes by mp_decode | ERR>  (second pass, bytes of the real (msgpack v))
      Q: MODEL q=<hex of json_quote s>   SPEC <S cps of fix_str s, checked to be what pstr reads back> *)
 open Model
 open Zutil
@@ -136,6 +138,23 @@ let rec dup_names (v : value) : bool =
     dup names || List.exists (fun (_, x) -> dup_names x) fs
   | _ -> false
 
+(* Go trees (interface{}): N T F I<integer> D<bits> S<cps> A<n> item*n M<n> (S<key> item)*n *)
+let rec show_gtree (b : Buffer.t) (g : gtree) : unit =
+  match g with
+  | GNil -> Buffer.add_string b "N"
+  | GBool true -> Buffer.add_string b "T"
+  | GBool false -> Buffer.add_string b "F"
+  | GInt z -> Buffer.add_string b ("I" ^ string_of_z z)
+  | GFloat bits -> Buffer.add_string b ("D" ^ string_of_z bits)
+  | GStr s -> Buffer.add_string b ("S" ^ string_of_cps s)
+  | GArr l -> Buffer.add_string b (Printf.sprintf "A%d" (List.length l));
+    List.iter (fun x -> Buffer.add_char b ' '; show_gtree b x) l
+  | GMap ms -> Buffer.add_string b (Printf.sprintf "M%d" (List.length ms));
+    List.iter (fun (k, x) -> Buffer.add_string b (" S" ^ string_of_cps k ^ " "); show_gtree b x) ms
+let gtree_string = function
+  | Some g -> let b = Buffer.create 64 in show_gtree b g; Buffer.contents b
+  | None -> "ERR"
+
 let parse_key (t : string) : key =
   if t.[0] = 'q' then KStr (cps_of_string (body t)) else KSym (cps_of_string (body t))
 
@@ -170,8 +189,17 @@ let value_case (id : string) (v : value) : unit =
       (if no_reserved_keys v then "" else "reserved");
       (if sym_keys v then "" else "strkeys");
       (if dup_names v then "dupnames" else "")]) in
-  Printf.printf "%s\tjson=%s;parse=%s;unjson=%s\ttree=%s;back=%s;flags=%s\n" id
-    (hex_of_bytes js) pstr_s un (tree_val_string (tree_of fmt v)) (show_outcome (Ok (norm v))) flags
+  (* the msgpack route, byte for byte: SexpToMsgpack = to_json, JsonToGo, GoToMsgpack; MsgpackToGo, GoToSexp *)
+  let mp = msgpack_bytes fmt pf v in
+  let mp_s = (match mp with Some b -> hex_of_bytes b | None -> "ERR") in
+  let unmp = (match mp with Some b -> show_outcome (unmsgpack_bytes b) | None -> "CRASH") in
+  let ungo = show_outcome (unjson_go pf js) in
+  let gspec = gtree_of fmt pf v in
+  let gok = (match gspec with Some g -> gt_ok g | None -> false) in
+  let flags = if gok then flags ^ ",gtok" else flags in
+  Printf.printf "%s\tjson=%s;parse=%s;unjson=%s;mp=%s;unmp=%s;ungo=%s\ttree=%s;back=%s;flags=%s;gtree=%s\n" id
+    (hex_of_bytes js) pstr_s un mp_s unmp ungo (tree_val_string (tree_of fmt v)) (show_outcome (Ok (norm v))) flags
+    (gtree_string gspec)
 
 let () =
   iter_lines (fun line ->
@@ -205,6 +233,10 @@ let () =
              let (v, r) = parse_value toks in go (n - 1) r (v :: acc) in
          let vs = go (int_of_string k) rest [] in
          value_case id (List.nth vs (int_of_string i))
+       | "M" :: rest ->
+         (* the bytes the real (msgpack v) produced, read by the independent msgpack reader *)
+         let b = bytes_of_hex (match rest with h :: _ -> h | [] -> "") in
+         Printf.printf "%s\tmptree=%s\t-\n" id (gtree_string (mp_decode b))
        | "Q" :: rest ->
          let s = cps_of_string (match rest with c :: _ -> c | [] -> "") in
          let q = json_quote s in
